@@ -20,6 +20,8 @@ class Objects:
     def library_function(self, full):
         if full in LIBFUNCS:
             return Builtin(LIBFUNCS[full])
+        if full == "datetime.timezone.utc":
+            return Opaque("tzinfo")
         return None
 
     def havoc_db(self, ex, st, db):
@@ -153,6 +155,23 @@ class Objects:
     def call_method(self, ex, st, obj, bm, args, kwargs, node):
         if obj.kind in ("connection", "cursor"):
             return self.call_method_db(ex, st, obj, bm, args, kwargs, node)
+        if obj.kind == "tz" and bm.name == "localize":
+            from . import libspec as L
+            L.trusted("pytz tz.localize(naive): the aware datetime whose UTC instant renders, in that zone, as the given wall "
+                      "time (wall_of(zone, instant) = wall); validated on sampled zones / instants by bounded.load_checks:run_C11")
+            naive = args[0]
+            if not (isinstance(naive, Opaque) and naive.kind == "naive_dt"):
+                raise EngineError("localize of a non-datetime")
+            inst = z3.Real(uid("instant"))
+            wall_of = self.ctx.uf("wall_of", I, I, I)
+            st.assume(z3.Implies(z3.IsInt(inst), wall_of(to_z3(obj.get("id")), z3.ToInt(inst)) == naive.get("wall")))
+            return Opaque("aware_dt", instant=inst, tzinfo=Opaque("tzinfo"))
+        if obj.kind == "tzinfo" and bm.name == "utcoffset":
+            return Opaque("timedelta")
+        if obj.kind == "aware_dt" and bm.name == "timestamp":
+            return obj.get("instant")
+        if obj.kind == "aware_dt" and bm.name == "astimezone":
+            return obj
         raise EngineError("%s:L%d: method %s of %r outside the subset" % (ex.fnname, node.lineno, bm.name, obj))
 
     def index_opaque(self, ex, st, base, node):
@@ -201,6 +220,8 @@ def antiderivative_of(ctx, clo):
 
 
 LIBFUNCS = {
+    "datetime.datetime.strptime": "dt_strptime",
+    "datetime.datetime.fromtimestamp": "dt_fromtimestamp",
     "scipy.stats.norm.cdf": "sp_normcdf",
     "scipy.integrate.quad": "sp_quad",
     "scipy.interpolate.splev": "sp_splev",
@@ -304,6 +325,19 @@ def _install():
             return Seq(x.n, lambda i: f(to_z3(as_real(x.at(i))), to_z3(sd)), "array")
         return f(to_z3(as_real(x)), to_z3(sd))
 
+    def b_dt_strptime(self, ex, st, args, kwargs, node):
+        libspec.trusted("datetime.strptime(text, '%Y-%m-%d %H:%M:%S'): the naive wall-clock time written in the text "
+                        "(uninterpreted function parse_wall of the text)")
+        fmt = args[1]
+        if fmt != "%Y-%m-%d %H:%M:%S":
+            raise EngineError("strptime with another format than ISO_8601_FORMAT is outside the subset")
+        return Opaque("naive_dt", wall=self.ctx.uf("parse_wall", I, I)(to_z3(as_int(args[0]))))
+
+    def b_dt_fromtimestamp(self, ex, st, args, kwargs, node):
+        return Opaque("aware_dt", instant=as_real(args[0]), tzinfo=Opaque("tzinfo"))
+
+    L.b_dt_fromtimestamp = b_dt_fromtimestamp
+    L.b_dt_strptime = b_dt_strptime
     L.b_sp_normcdf = b_sp_normcdf
     L.b_sp_quad = b_sp_quad
     L.b_sp_splev = b_sp_splev
